@@ -220,6 +220,12 @@ def check_send(run, F, fn, kind):
             core = r
             if is_call(core, "std::result::Result::<T, E>::map_err"):
                 core = core[2][0]
+            if isinstance(core, tuple) and core[0] == "ctor" and core[1].endswith("::Ok") and isinstance(core[2], list) and len(core[2]) == 1 and \
+                    isinstance(core[2][0], tuple) and core[2][0][0] == "ok?":
+                core = core[2][0][1]        # `Ok(x?)` returns x's value and x's error (converted): the same result as `x.map_err(From::from)`
+            if isinstance(core, tuple) and core[0] == "ctor" and core[1].endswith("::Err") and isinstance(core[2], list) and len(core[2]) == 1 and \
+                    is_call(core[2][0], "<from-err>") and core[2][0][2]:
+                core = core[2][0][2][0]     # .. and this is its error side, when the `?` sits in a helper that was inlined
             while isinstance(core, tuple) and core[0] in ("await",):
                 core = core[1]
             ok_ret = core is pt or (is_call(core, parse_name))
@@ -236,7 +242,9 @@ def check_builder(run, F):
     if b is None:
         run.anchor_lost("R-HTTPSHAPE", BUILDER + "basic_auth")
     else:
-        for p in paths_of(b):
+        # one setter written in terms of another (basic_auth through http_header) is judged with that setter inlined
+        setters = {q: x for q, x in F.hir.items() if q.startswith(BUILDER) and x.get("kind") == "AssocFn"}
+        for p in paths_of(b, inline=setters):
             ins = [t for t in p.trace if is_call(t) and t[1].endswith("BTreeMap::<K, V, A>::insert")]
             ok = False
             why = "no insert into headers"
@@ -328,6 +336,16 @@ def check_config_writers(run, F, rule="R-CONFIG-LIVE"):
                     run.ob(rule, "%s writes builder field %s" % (path.split("::", 2)[-1], l["name"]), fn in allowed[l["name"]],
                            "assignment to the client's `%s` outside its setter: %s (the configured target / option would silently change)" % (l["name"], show(n)[:100]),
                            site(body, n), key="%s|writer|%s|%s" % (rule, l["name"], path))
+            if n.get("k") == "struct" and (n.get("path") or "") == B and not path.endswith("::new") and "base" in n and \
+                    unwrap(n["base"]).get("k") == "path" and unwrap(n["base"]).get("res", {}).get("r") == "local":
+                # `Self { field: v, ..self }` is `self.field = v; self`: each listed field is written, the others are carried over
+                for f in n["fields"]:
+                    if f["name"] in allowed:
+                        fn = path.split("::")[-1]
+                        run.ob(rule, "%s writes builder field %s" % (path.split("::", 2)[-1], f["name"]), fn in allowed[f["name"]],
+                               "record update of the client's `%s` outside its setter: %s (the configured target / option would silently change)" % (f["name"], show(n)[:100]),
+                               site(body, n), key="%s|writer|%s|%s" % (rule, f["name"], path))
+                continue
             if n.get("k") == "struct" and (n.get("path") or "") == B and not path.endswith("::new"):
                 run.ob(rule, "%s rebuilds the client configuration" % path.split("::", 2)[-1], False, show(n)[:100], site(body, n), key="%s|rebuild|%s" % (rule, path))
     nb = F.body(B + "::<T>::new")
